@@ -459,7 +459,7 @@ package shwap
 //@   requires rnd.Proof != nil
 //@   ensures result ==> nmtNsVerified(deref(rnd.Proof), namespace.data, rnd.Shares, rowRoot)
 //@ func (RowNamespaceData).verifyInclusion
-//@   property C02 C01
+//@   property C02 C01 C10
 //@   noframe
 //@   requires rnd.Proof != nil
 //@   callpre Proof).VerifyNamespace: $arg0 == deref(rnd.Proof) && $arg2 == namespace.data && $arg3 == leaves && $arg4 == rowRoot && len(leaves) == len(rnd.Shares)
@@ -469,7 +469,7 @@ package shwap
 // One row: shares present <=> inclusion proof, no shares <=> absence proof; the namespace is inside the
 // row's range; the NMT namespace proof verifies against *this* row's root.
 //@ func (RowNamespaceData).Verify
-//@   property C02 C01
+//@   property C02 C01 C10
 //@   ensures err == nil ==> rnd.Proof != nil && (len(rnd.Shares) == 0 <==> len(deref(rnd.Proof).leafHash) > 0)
 //@   ensures err == nil ==> !outsideOf(namespace, roots.RowRoots[rowIdx])
 //@   ensures err == nil ==> nmtNsVerified(deref(rnd.Proof), namespace.data, rnd.Shares, roots.RowRoots[rowIdx])
